@@ -133,8 +133,8 @@ def check(ctx):
         rnd = random.Random(ctx.seed)
         if ctx.tier == "quick":
             names = set(QUICK_ALWAYS) | set(rnd.sample([t[0] for t in TARGETS if t[0] not in QUICK_ALWAYS], 2))
-            plan = [(t, "crash", "kv", "all") for t in TARGETS if t[0] in names]
-            plan += [(t, "once", "kv", "sample") for t in TARGETS if t[0] in names]
+            plan = [(t, "crash", "kv", "all" if t[0] in ("roa", "cainit") else "sample8") for t in TARGETS if t[0] in names]
+            plan += [(t, "once", "kv", "sample2") for t in TARGETS if t[0] in names]
         else:
             plan = [(t, m, "kv", "all") for t in TARGETS for m in ("crash", "once")]
         texts = [scenario(*p) for p in plan]
